@@ -793,3 +793,25 @@ func TestC10RegressByteEncodingCmap(t *testing.T) {
 		}
 	}
 }
+
+// TestC10RegressMacHighCodes: the Macintosh subtable of a subset keeps the
+// meaning of the Mac Roman codes above 0x7F.
+func TestC10RegressMacHighCodes(t *testing.T) {
+	c := genfont.Gen(genfont.Opts{Kind: genfont.KindCFF, MinGlyphs: 5, MaxGlyphs: 6, Layout: genfont.LayoutNone}).Example(3)
+	f := c.Font
+	key := cmap.Key{PlatformID: 1, EncodingID: 0}
+	f.CMapTable = cmap.Table{key: cmap.Format4{0x41: 1, 0x8A: 2, 0xE4: 3}.Encode(0)} // A, a-dieresis, per mille
+	var s *sfnt.Font
+	if pn := guard.Try(func() { s = f.Subset([]glyph.ID{0, 3, 2}) }); pn != nil {
+		t.Fatalf("Subset panicked: %s", pn)
+	}
+	st, err := s.CMapTable.Get(key)
+	if err != nil {
+		t.Fatalf("subtable %v lost: %v", key, err)
+	}
+	for r, want := range map[rune]glyph.ID{'A': 0, 0xE4: 2, 0x2030: 1, 0x8A: 0} {
+		if got := st.Lookup(r); got != want {
+			t.Errorf("U+%04X: new glyph %d, want %d", r, got, want)
+		}
+	}
+}
